@@ -131,6 +131,7 @@ macro_rules! c17 {
 type F0 = KVM<8, 64, 0>;
 type F1 = KVM<8, 64, 1>;
 type F2 = KVM<8, 64, 2>;
+type F3 = KVM<8, 64, 3>;
 c17!(c17_claim_bits_on_side, check_claim, F0);
 c17!(c17_claim_bits_in_pointer_word, check_claim, F1);
 c17!(c17_claim_bits_in_low_header_byte, check_claim, F2);
@@ -143,6 +144,11 @@ c17!(c17_after_copy_bits_in_low_header_byte, check_after_copy, F2);
 c17!(c17_read_bits_on_side, check_read, F0);
 c17!(c17_read_bits_in_pointer_word, check_read, F1);
 c17!(c17_read_bits_in_low_header_byte, check_read, F2);
+// forwarding bits in the top byte of the pointer word (the case the pointer mask's 0x00ff.. exists for)
+c17!(c17_claim_bits_in_pointer_top_byte, check_claim, F3);
+c17!(c17_copy_bits_in_pointer_top_byte, check_copy, F3, true);
+c17!(c17_after_copy_bits_in_pointer_top_byte, check_after_copy, F3);
+c17!(c17_read_bits_in_pointer_top_byte, check_read, F3);
 
 /// attempt_to_forward against the interference contract of the metadata CAS (see interference.rs): whatever finitely
 /// many spurious CAS failures occur, a tracer is told "not forwarded yet, you copy" (return value 00) only if this very
